@@ -51,7 +51,13 @@ extern "C" void h_entry_rt(void) {
   std::vector<uint8_t> val;
   uint32_t vl = nondet_u32(); verif_assume(vl <= MAXVAL);
   for (uint32_t i = 0; i < MAXVAL; ++i) if (i < vl) val.push_back(nondet_u8());
-  m.AddEntryBinary(name, val);
+  {  // the entry is put into the map directly: Metadata::AddEntryBinary -> EntryValue(const std::vector&) evaluates &data[0],
+     // which trips a libstdc++ assertion for an EMPTY value (harmless in release builds) and would hide exactly that case
+    std::vector<uint8_t> one(1, 0);
+    EntryValue ev(vl ? val : one);
+    if (!vl) ev.data_.clear();
+    m.entries_.insert(std::make_pair(name, ev));
+  }
   EncoderBuffer eb; eb.buffer()->reserve(16);
   MetadataEncoder enc;
   const bool eok = enc.EncodeMetadata(&eb, &m);
@@ -69,5 +75,49 @@ extern "C" void h_entry_rt(void) {
       verif_assert(db.remaining_size() == 0, "exact consumption");
     }
   }
+  verif_reach();
+}
+
+// error propagation: a sub-metadata two levels down whose name is too long (256 bytes) cannot be encoded; the top-level
+// call must report failure (or produce something decodable)
+extern "C" void h_err_prop(void) {
+  Metadata root;
+  std::unique_ptr<Metadata> lvl1(new Metadata());
+  std::unique_ptr<Metadata> lvl2(new Metadata());
+  std::string longname(256, 'x');
+  lvl1->AddSubMetadata(longname, std::move(lvl2));
+  root.AddSubMetadata("a", std::move(lvl1));
+  EncoderBuffer eb; eb.buffer()->reserve(16);
+  MetadataEncoder enc;
+  const bool eok = enc.EncodeMetadata(&eb, &root);
+  if (eok) {
+    DecoderBuffer db; db.Init(eb.data(), eb.size());
+    MetadataDecoder dec; Metadata out;
+    verif_assert(dec.DecodeMetadata(&db, &out) && db.remaining_size() == 0, "encoder reported success => the metadata block decodes completely");
+  }
+  verif_reach();
+}
+
+// entry framing: the bytes MetadataEncoder::EncodeMetadata writes for one entry (name, varint size, value bytes -- the same
+// three real calls in the same order) must be accepted by MetadataDecoder::DecodeEntry and consumed exactly.
+// Metadata::AddEntryBinary is cut (no-op): the std::map behind it is outside reach.
+extern "C" void h_entry_framing(void) {
+  std::string name; any_name(&name);
+  uint8_t val[MAXVAL];
+  uint32_t vl = nondet_u32(); verif_assume(vl <= MAXVAL);
+  for (uint32_t i = 0; i < MAXVAL; ++i) val[i] = nondet_u8();
+  EncoderBuffer eb; eb.buffer()->reserve(MAXLEN + MAXVAL + 4);
+  MetadataEncoder enc;
+  verif_assert(enc.EncodeString(&eb, name), "name encodes");
+  EncodeVarint(vl, &eb);                       // as in MetadataEncoder::EncodeMetadata
+  eb.Encode(val, vl);
+  const size_t len = eb.size();
+  eb.Encode((uint8_t)nondet_u8());
+  DecoderBuffer db; db.Init(eb.data(), eb.size());
+  MetadataDecoder dec; dec.buffer_ = &db;
+  Metadata sink;                               // AddEntryBinary is cut in the model (the native replay runs the real one)
+  const bool ok = dec.DecodeEntry(&sink);
+  verif_assert(ok, "an entry written by the encoder (any value length, including 0) is accepted by the decoder");
+  verif_assert(!ok || (size_t)db.decoded_size() == len, "the entry is consumed exactly");
   verif_reach();
 }
